@@ -76,6 +76,7 @@ type lifeW struct {
 	ncycles               int
 	reconn                int // 0 main task, 1 fg DISCONNECTED handler, 2 bg DISCONNECTED handler
 	sampleConnected       bool
+	chatty                bool // handlers call read-only API methods (Connected, Me, String, ...)
 
 	cycles        []*lifeCycle
 	plans         []*lifeCycle
@@ -138,6 +139,8 @@ func lifeRun(e *Env) {
 	}
 	w.sampleConnected = g.Pct(70)
 	w.bound = 120 * time.Second
+	e.Log.Slow = g.Pct(30)
+	w.chatty = g.Pct(50)
 
 	for i := 0; i < w.ncycles; i++ {
 		cy := &lifeCycle{no: i + 1}
@@ -340,6 +343,23 @@ func (w *lifeW) install() {
 		}
 	}))
 	c.HandleFunc(client.NOTICE, func(c *client.Conn, l *client.Line) {
+		if w.chatty {
+			// what an ordinary bot does inside handlers
+			switch e.S.Choose(6) {
+			case 0:
+				_ = c.Connected()
+			case 1:
+				_ = c.Me()
+			case 2:
+				_ = c.String()
+			case 3:
+				_ = c.HasCapability("x") || c.SupportsCapability("y")
+			case 4:
+				if st := c.StateTracker(); st != nil {
+					_ = st.GetNick("other")
+				}
+			}
+		}
 		cy := w.curCycle()
 		if cy != nil && cy.slowHandler > 0 && strings.HasPrefix(l.Text(), "fill 0") {
 			simrt.Sleep(cy.slowHandler)
